@@ -193,3 +193,7 @@ Theorem no_write_on_unflagged_stretch ptau stau s u1 u2 f1 f2 : length u1 = leng
 Proof.
   intros Hl Hf. rewrite with_flags_app by exact Hl. rewrite units_run_app. apply units_no_update. apply with_flags_unflagged. exact Hf.
 Qed.
+
+(* a length mismatch (zip_strict raises in Python before anything useful is written): the event model keeps BOTH lists as they are *)
+Lemma pair_update_mismatch s tau : length (fst s) <> length (snd s) -> pair_step s (Update tau) = s.
+Proof. intros H. destruct s as [o t]. cbn [pair_step fst snd] in *. rewrite (polyak_list_mismatch tau o t H). reflexivity. Qed.
